@@ -259,7 +259,7 @@ theorem beHeader_np (t : PTy) (dcidLen : Nat) (hd : dcidLen ≤ 20) (bs : Bytes)
     | ok dcid r =>
       simp only [Res.bind]
       have := pTakeS_ok _ _ _ _ ht
-      have hl : ¬ dcid.length > maxCid := by unfold maxCid; omega
+      have hl : ¬ dcid.length > maxCid := by unfold maxCid GmQuic.Gen.C03.maxCidSize; omega
       rw [if_neg hl]; exact np_ok _ _
     | err k => exact np_err _
     | panic s => exact absurd ht (pTakeS_np _ _ s)
